@@ -146,6 +146,14 @@ bool index_read(zckCtx *zck, char *data, size_t size, size_t max_length) {
             zck->index.first = new;
         prev = new;
     }
+    /* The advertised chunk count must be the number of entries actually
+     * present, and there is always at least the dictionary entry */
+    if(count < 1 || (size_t)count != index_count) {
+        set_fatal_error(zck, "Chunk count (%llu) doesn't match the number of "
+                        "index entries (%i)",
+                        (long long unsigned) index_count, count);
+        return false;
+    }
     free(zck->index_string);
     zck->index_string = NULL;
     return true;
